@@ -33,17 +33,6 @@ Theorem C51_self_comparison_succeeds : forall k prec prec2 col, all_finite col -
 Proof. intros; exact (conj (absolute_self _ _ _ H H0) (conj (relative_self _ _ _ H H0) (relabs_self _ _ _ _ H H0))). Qed.
 Print Assumptions C51_self_comparison_succeeds.
 
-(* Area: identical curves on ordered abscissas succeed; a normalised area above the tolerance fails *)
-Theorem C51_area_identical_curves_succeed : forall prec ts vs, ordered_abscissas ts -> ts <> [] ->
-  length vs = length ts -> not_negative prec -> area TolGt no_interp prec ts vs ts vs = Some true.
-Proof. exact area_identical. Qed.
-Print Assumptions C51_area_identical_curves_succeed.
-
-Theorem C51_area_above_tolerance_fails : forall interp prec tA vA tB vB ar,
-  area_value interp tA vA tB vB = Some ar -> above_tol ar prec -> area TolGt interp prec tA vA tB vB = Some false.
-Proof. exact area_above_tolerance_fails. Qed.
-Print Assumptions C51_area_above_tolerance_fails.
-
 (* MTest @Test: a successful sequence of checks never threw and every pair is finite and within eps *)
 Theorem C51_analytical_test_sound : forall k eps rows, Finite eps ->
   analytical k eps rows = Verdict true -> analytical_rows_sound eps rows.
